@@ -51,6 +51,8 @@ class Contract:
         self.checks = kw.pop("checks", ["safety", "post", "frame"])
         self.decreases = kw.pop("decreases", None)
         self.runtime_name = kw.pop("runtime_name", None)
+        self.gen = kw.pop("gen", None)
+        self.rt_ensures = _named(kw.pop("rt_ensures", []), "rt")   # clauses evaluated only by the bounded run-time layer
         self.concretize = kw.pop("concretize", None)
         if kw:
             raise TypeError("unknown contract keys %s in %s" % (sorted(kw), name))
